@@ -67,7 +67,7 @@ Qed.
 Lemma IS_pool_push n t c s : IS s -> IS (pool_push n t c s).
 Proof.
   intros H. unfold pool_push.
-  set (s1 := if share_of s c then upd_tok t (set_marker false) s else s).
+  set (s1 := if share_of s c then upd_tok t (set_marker None) s else s).
   assert (H1 : IS s1) by (subst s1; destruct (share_of s c); [apply IS_upd_tok; auto|exact H]).
   destruct (walk_waiters t c (share_of s1 c) (p_waiting (get_tok s1 t)) s1) as [[rest moved] s2] eqn:Hw.
   assert (H2 : IS s2).
@@ -81,10 +81,11 @@ Proof.
   - eapply IS_frame; [apply toks_drop_conn|apply now_drop_conn|exact H3].
 Qed.
 
-Lemma IS_pool_cancel t s : IS s -> IS (pool_cancel t s).
+Lemma IS_pool_cancel t rid s : IS s -> IS (pool_cancel t rid s).
 Proof.
-  intros H. unfold pool_cancel. destruct (p_marker (get_tok s t)); [|exact H].
-  set (s1 := upd_tok t (set_marker false) s).
+  intros H. unfold pool_cancel. destruct (p_marker (get_tok s t)) as [o|]; [|exact H].
+  destruct (Nat.eqb o rid); [|exact H].
+  set (s1 := upd_tok t (set_marker None) s).
   assert (H1 : IS s1) by (apply IS_upd_tok; auto).
   destruct (release_pending (p_waiting (get_tok s1 t)) s1) as [rest s2] eqn:Hr.
   apply IS_upd_tok; auto.
@@ -178,7 +179,7 @@ Proof.
               | _ => false end).
   intros delayed.
   assert (H2 : IS (if delayed then spawn (TDelayed rid (k_token ck) (k_owner ck)) s1
-                   else if g_pool cfg && negb (k_token ck =? 0) && k_owner ck then pool_cancel (k_token ck) s1 else s1)).
+                   else if g_pool cfg && negb (k_token ck =? 0) && k_owner ck then pool_cancel (k_token ck) rid s1 else s1)).
   { destruct delayed; [exact H1|].
     destruct (g_pool cfg && negb (k_token ck =? 0) && k_owner ck); [apply IS_pool_cancel|]; exact H1. }
   match goal with |- context [rx_drop ck ?s2] => pose proof (IS_rx_drop ck s2 H2) as H3; destruct (rx_drop ck s2) as [ck' s3] end.
@@ -196,10 +197,11 @@ Proof.
   destruct (pool_pop (g_timeout cfg) t s1) as [found s2] eqn:Hp.
   assert (H2 : IS s2) by (eapply IS_pool_pop; [exact H1|exact Hp]).
   destruct found; [exact H2|].
-  set (s3 := upd_tok t (fun q => set_waiting (p_waiting q ++ [(List.length (reqs s), p_marker (get_tok s2 t))]) q) s2).
+  set (pending := match p_marker (get_tok s2 t) with Some _ => true | None => false end).
+  set (s3 := upd_tok t (fun q => set_waiting (p_waiting q ++ [(List.length (reqs s), pending)]) q) s2).
   assert (H3 : IS s3) by (apply IS_upd_tok; auto).
-  destruct (p_marker (get_tok s2 t)); [exact H3|].
-  destruct p; cbn; [exact H3|]. apply (IS_upd_tok t (set_marker true) s3); auto.
+  destruct pending; [exact H3|].
+  destruct p; cbn; [exact H3|]. apply (IS_upd_tok t (set_marker (Some (List.length (reqs s)))) s3); auto.
 Qed.
 
 Lemma IS_hold_release r p s : IS s -> IS (hold_release r p s).
@@ -240,8 +242,8 @@ Proof.
     destruct r as [|[c|e]]; [exact H1| |].
     + pose proof (IS_register cfg t c s1 H1) as H2. destruct (register cfg t c s1) as [p s2]. cbn [snd] in H2.
       eapply IS_frame; [apply toks_pooled_drop|apply now_pooled_drop|].
-      destruct (g_pool cfg && negb (t =? 0) && own); [apply (IS_pool_cancel t s2 H2)|exact H2].
-    + destruct (g_pool cfg && negb (t =? 0) && own); [apply (IS_pool_cancel t s1 H1)|exact H1].
+      destruct (g_pool cfg && negb (t =? 0) && own); [apply (IS_pool_cancel t rid s2 H2)|exact H2].
+    + destruct (g_pool cfg && negb (t =? 0) && own); [apply (IS_pool_cancel t rid s1 H1)|exact H1].
 Qed.
 
 Lemma IS_bg_loop cfg fuel : forall s, IS s -> IS (bg_loop cfg fuel s).
